@@ -38,7 +38,7 @@ def judge_groups(ctx, path, prop, label):
                 prop, v["what"], bad["modes"], bad["fault"], bad["st"], bad["post"], ref[0]["modes"] if ref else None, ref[0]["st"] if ref else None,
                 ref[0]["post"] if ref else None, g["text"].replace("\n", " ")[:300]), rp)
         else:
-            raise Infra("candidate did not reproduce: %s" % v)
+            ctx.__dict__.setdefault("unreproduced", []).append(v)
 
 
 def confirm_store(ctx, rp):
